@@ -110,7 +110,9 @@ def parse_xspf(data):
     ns = "http://xspf.org/ns/0/"
     path = f"{{{ns}}}tracklist/{{{ns}}}track"
     for track in element.iterfind(path):
-        yield track.findtext(f"{{{ns}}}location")
+        location = track.findtext(f"{{{ns}}}location")
+        if location is not None:
+            yield location
 
 
 def parse_asx(data):
